@@ -38,6 +38,7 @@ def closeName : Option CloseReason → String
   | none => "open"
   | some .badStream => "close:bad-stream"
   | some .maxMessageSize => "close:max-size"
+  | some .malformed => "close:malformed"
 
 /-- feed one packet straight to the receiver (hand-driven sender) and report what it did -/
 def recvPkt (st : St) (p : Packet) : St × String :=
@@ -176,7 +177,7 @@ def step (st : St) (line : String) : St × String :=
   | ["malformed", _kind] =>
     -- undecodable envelope / unknown payload type / oversized length prefix: the receive loop errors before any stream is touched
     if st.c.r.closed.isSome then (st, "ignored-closed")
-    else ({ st with c := { st.c with r := { st.c.r with closed := some .badStream } } }, "close:malformed")
+    else ({ st with c := { st.c with r := st.c.r.malformed } }, "close:malformed")
   | _ => (st, "bad-op")
 
 end Driver.C18
